@@ -89,6 +89,11 @@ var c09Pool = []c09Set{
 		{"at", `title="{{.}}"`}, {"a", `<a {{template "at" .}}>x</a>`}, {"b", `<b {{template "at" .}}>y</b>`}, {"c", `<p>{{.}}</p>`}}},
 	{defs: [][2]string{{"root", `<p>{{.}}</p>`},
 		{"a", `<a onclick="f()">{{.}}</a>`}, {"b", `<p>{{.}}</p>`}, {"c", `{{template "b" .}}`}}, failing: true, bad: []string{"a"}, csp: true},
+	// a helper whose TEXT is refused (an error without a node) reached by several members: the error values
+	// handed to different goroutines must not be one shared object that a later analysis rewrites
+	{defs: [][2]string{{"root", `<p>{{.}}</p>`},
+		{"f", `<a title=a"b>{{.}}</a>`}, {"a", `{{template "f" .}}`}, {"b", `<p>{{template "f" .}}</p>`}, {"c", `<i>{{.}}</i>`}, {"d", `<ul><li>{{template "f" .}}</li></ul>`}},
+		failing: true, bad: []string{"f", "a", "b", "d"}},
 }
 
 var c09Data = []string{"s1", "s2", "n", "t", "l0", "l2", "nil"}
